@@ -1,5 +1,6 @@
 """C34 — one Hy name, one Python identifier: R-ID-MANGLE at every identifier sink."""
 CANON = True
+STRICT = {"R-ID-MANGLE", "R-ID-MANGLE-STORE", "R-ID-MANGLE-RT"}
 
 import ast
 
